@@ -100,6 +100,20 @@ def r_accept(ck: Checker) -> None:
         itp = ck.interp(func, Pins.of(facts={key: True}))
         back = itp.loop_back.get(id(inner[0]), [])
         ck.add(f"rejected when {key}", not back and itp.reachable(inner[0]), func, inner[0], f"under `{key}` a condition can be passed over: {bool(back)}", why)
+    ds = ck.prg.funcs.get(f"ngo.{DP}.add_domain_rules.<locals>.is_dynamic_sum")
+    ck.need(ds is not None, "is_dynamic_sum exists")
+    itd = ck.interp(ds)  # type: ignore[arg-type]
+    trues = [r for r in returns_of(ds) if is_const(r.value, True)]  # type: ignore[arg-type]
+    ck.need(len(trues) == 1, "is_dynamic_sum has one positive answer")
+    k = [key for key, v in itd.known(trues[0]) if v is False and key.startswith("self.is_static(Predicate(")]
+    ck.add("an aggregate is dynamic iff it ranges over a NON-STATIC predicate", bool(k), ds, trues[0], f"`return True` dominated by `not self.is_static(Predicate(..))`: {k}",  # type: ignore[arg-type]
+           "a predicate that merely HAS a domain is still choice-dependent: replacing it by its domain inside a non-monotone aggregate makes the generated domain miss values")
+    inner_l = enclosing_loop(ds, trues[0])  # type: ignore[arg-type]
+    if k and inner_l is not None:
+        itp = ck.interp(ds, Pins.of(facts={k[0]: False}))  # type: ignore[arg-type]
+        back = itp.loop_back.get(id(inner_l), [])
+        ck.add("every atom over a non-static predicate makes the aggregate dynamic", not back and itp.reachable(inner_l), ds, inner_l, f"under `not is_static(..)` an atom can be passed over: {bool(back)}",  # type: ignore[arg-type]
+               "testing has_domain instead of is_static overlooks choice-dependent predicates that got a domain: their domain atoms inside a bounded #count/#sum under-approximate")
     okk, n = True, 0
     pred = None
     st_ret = [r for r in returns_of(func) if is_const(r.value, True) and not any(x is r for x in ast.walk(rloop))]
@@ -217,6 +231,14 @@ def r_create_domain(ck: Checker) -> None:
     ck.add("domain rule head = domain predicate with the original head arguments", m is not None, func, r, f"head `{short(head, 160)}`", "plain rule (C06), same arguments: p(t) in M implies dom_p(t) in M")
     org = {s.origin.get(m.group(1), "") for s in it.states(r)} if m else set()
     ck.add("one domain rule per registered (head, condition) pair", org == {f"self.domain_rules[{pred}][*][0]"} and unparse(r.args[2]) in [n for s in it.states(r) for n, o in s.origin.items() if o == f"self.domain_rules[{pred}][*][1]"], func, r, f"head atom from {sorted(org)}, body `{unparse(r.args[2])}`", "")
+    cdc = ck.func(f"{DP}.__create_domain_for_condition")
+    itc = ck.interp(cdc)
+    rec = resolved_calls(ck.prg, cdc, f"ngo.{DP}.create_domain")
+    ck.need(len(rec) == 1, "__create_domain_for_condition recurses into create_domain")
+    outer = enclosing_loop(cdc, rec[0])
+    ok = outer is not None and unparse(outer.iter).replace(" ", "") == f"collect_ast({cdc.params()[1]},'SymbolicAtom')"
+    ck.add("domain rules are emitted for EVERY symbolic atom of a condition (also inside conditional literals and aggregates)", ok, cdc, rec[0], f"iterates `{unparse(outer.iter) if outer is not None else None}`",
+           "a domain predicate used in a condition but never defined is empty: the domain of the depending predicate collapses")
     hd = ck.func(f"{DP}.has_domain")
     rets = returns_of(hd)
     ck.add("has_domain = static or a domain was computed", len(rets) == 1 and unparse(rets[0].value).replace(" ", "") == f"self.is_static({hd.params()[1]})or{hd.params()[1]}inself.domains", hd, hd.node, f"`{fmt(rets[0]) if rets else None}`", "")  # type: ignore[arg-type]
